@@ -437,8 +437,10 @@ int World::exec_entity(const Op &op) {
     case OP_delete_section: {
         Section s = section_at(a[0]); if (!s) return 2;
         take_victim_handles(s.id()); last_deleted_name = s.name(); VICTIM(7, section, s);
-        if (s.sectionCount()) { Section c = s.getSection((ndsize_t) 0); VICTIM(7, section, c); }
-        if (s.propertyCount()) { Property p = s.getProperty((ndsize_t) 0); VICTIM(8, property, p); }
+        // handles to every direct child and property (a cascade that leaves out the second, or the last, of several is as wrong as one that
+        // leaves out the first)
+        { ndsize_t nc = s.sectionCount(); for (ndsize_t i = 0; i < nc && i < 8; i++) { Section c = s.getSection(i); VICTIM(7, section, c); } }
+        { ndsize_t np = s.propertyCount(); for (ndsize_t i = 0; i < np && i < 8; i++) { Property p = s.getProperty(i); VICTIM(8, property, p); } }
         int how = ((unsigned) a[1]) % 3;
         Section par = s.parent();
         arg_class = std::string(how == 0 ? "by-name" : how == 1 ? "by-id" : "by-handle") + (par ? ",nested" : "");
@@ -464,7 +466,7 @@ int World::exec_entity(const Op &op) {
         Block b = blk(a[0]); if (!b) return 2;
         Source s = source_at(a[0], a[1]); if (!s) return 2;
         take_victim_handles(s.id()); last_deleted_name = s.name(); VICTIM(6, source, s);
-        if (s.sourceCount()) { Source c = s.getSource((ndsize_t) 0); VICTIM(6, source, c); }
+        { ndsize_t nc = s.sourceCount(); for (ndsize_t i = 0; i < nc && i < 8; i++) { Source c = s.getSource(i); VICTIM(6, source, c); } }
         int how = ((unsigned) a[2]) % 3;
         Source par = s.parentSource();
         arg_class = std::string(how == 0 ? "by-name" : how == 1 ? "by-id" : "by-handle") + (par ? ",nested" : "");
